@@ -652,6 +652,45 @@ def r_step_part_kinds(ck: Checker, modname: str = XP, rule: str = "R-XP-ELEMENTS
         ck.holds(rule, (c.mod.rel, "XPathTransformer.index_spec"), ix, what, returns=len(rets))
 
 
+def r_xp_cache_key(ck: Checker, modname: str = XP, rule: str = "R-XP-SHARED") -> None:
+    """Compiled xpaths are interned: the table must be keyed by the text itself.  Positive pattern: a key computed from the text (stripped,
+    whitespace-collapsed, lower-cased ...) — two different texts share one object, and compiling the second re-initialises the object
+    someone else still holds."""
+    if not ck.repo.has_func(modname, "ASTXpath.__new__"):
+        ck.holds(rule, (ck.repo.mod(modname).rel, "ASTXpath"), None, "ASTXpath objects are not interned (no __new__)")
+        return
+    f = ck.repo.func(modname, "ASTXpath.__new__")
+    fn = f.raw or f.node
+    tp = fn.args.args[1].arg if len(fn.args.args) > 1 else None
+    n = 0
+    for x in ast.walk(fn):
+        key = None
+        if isinstance(x, ast.Subscript) and "CACHE" in norm(x.value).upper():
+            key = x.slice
+        elif isinstance(x, ast.Compare) and len(x.ops) == 1 and isinstance(x.ops[0], (ast.In, ast.NotIn)) and "CACHE" in norm(x.comparators[0]).upper():
+            key = x.left
+        elif isinstance(x, ast.Call) and isinstance(x.func, ast.Attribute) and x.func.attr in ("get", "setdefault", "pop") and "CACHE" in norm(x.func.value).upper() and x.args:
+            key = x.args[0]
+        if key is None:
+            continue
+        n += 1
+        what = "the table of interned xpaths is keyed by the xpath text itself"
+        if isinstance(key, ast.Name) and key.id != tp:
+            defs = [st.value for st in ast.walk(fn) if isinstance(st, ast.Assign) and len(st.targets) == 1 and isinstance(st.targets[0], ast.Name) and st.targets[0].id == key.id]
+            if len(defs) == 1 and isinstance(defs[0], ast.Name) and defs[0].id == tp:
+                key = defs[0]
+            elif len(defs) == 1 and isinstance(defs[0], ast.Call) and dotted(defs[0].func) in ("str", "cast", "t.cast", "typing.cast") and defs[0].args and norm(defs[0].args[-1]) == tp:
+                key = defs[0].args[-1]
+        if isinstance(key, ast.Name) and key.id == tp:
+            ck.holds(rule, f, x, what)
+        else:
+            ck.violation(rule, f, x, what, positive=True,
+                         construct=f"ASTXpath.__new__: the cache is keyed by {norm(key)[:40]}, not by the text `{tp}` — different texts with the same key share (and re-initialise) one object")
+            return
+    if n == 0:
+        raise Unsupported("ASTXpath.__new__: no cache access found", fn)
+
+
 def r_xp_once(ck: Checker) -> None:
     f = ck.repo.func(XP, "ASTXpath.findall")
     fn = f.node
@@ -859,6 +898,7 @@ def run(ck: Checker) -> None:
     ck.guard("R-XP-ONCE", lambda: r_xp_once(ck))
     ck.guard("R-XP-ELEMENTS", lambda: r_empty_step(ck))
     ck.guard("R-XP-ELEMENTS", lambda: r_step_part_kinds(ck))
+    ck.guard("R-XP-SHARED", lambda: r_xp_cache_key(ck))
     from . import state_rules as S
     ck.guard("R-XP-SHARED", lambda: S.r_stateless(ck, "R-XP-SHARED", XP, "ASTXpath", ("match", "findall"), "a compiled xpath is interned per text and used for any tree"))
     ck.guard("R-XP-SHARED", lambda: S.r_stateless(ck, "R-XP-SHARED", XP, "XPathTransformer", None, "one transformer instance serves every parse, also after a failed one"))
